@@ -254,6 +254,11 @@ func genOp(t *rapid.T, p *Profile, cfg *Config) Op {
 		n := rapid.IntRange(1, 3).Draw(t, "npost")
 		for i := 0; i < n; i++ {
 			ps := PostingSpec{Src: rapid.IntRange(-1, cfg.Accounts-1).Draw(t, "psrc"), Dst: rapid.IntRange(-1, cfg.Accounts-1).Draw(t, "pdst"), Amount: amount("pamount")}
+			// money passing through: a later posting is paid out of what an earlier one received (the
+			// account is then first met as a destination and only later as a source)
+			if i > 0 && pct(t, 35, "chain") {
+				ps.Src = op.Postings[rapid.IntRange(0, i-1).Draw(t, "chainFrom")].Dst
+			}
 			op.Postings = append(op.Postings, ps)
 		}
 	case "revert":
